@@ -13,6 +13,7 @@ import (
 	"context"
 	"encoding/json"
 	"fmt"
+	"go/ast"
 	"io"
 	"math/rand"
 	"os"
@@ -40,6 +41,10 @@ type syncIn struct {
 	Skip    bool              `json:"skip_corrupted,omitempty"`
 	Corrupt []int             `json:"corrupt,omitempty"`            // present blocks whose local meta.json is unreadable
 	Conc    int               `json:"upload_concurrency,omitempty"` // > 1: chunk files of a block go out concurrently
+	// Fresh: a new process (new Shipper object) performs this sync. Otherwise the Shipper of the
+	// previous sync is reused when that sync did not die and the settings are the same - its
+	// external labels come from a callback (as in the sidecar) whose value has changed meanwhile.
+	Fresh bool `json:"fresh,omitempty"`
 }
 
 type input struct {
@@ -112,6 +117,31 @@ func facts(repo string, w io.Writer) error {
 	}
 	fmt.Fprintln(w, "(* pkg/shipper/shipper.go: Shipper.upload — source-order calls *)")
 	fmt.Fprint(w, cu.CallArgsCoq("shipper_upload_calls", ul))
+	// what New stores in Shipper.labels: the owner's callback itself (read at upload time), not a
+	// value captured at construction
+	nf, err := ss.FindFunc("New")
+	if err != nil {
+		return err
+	}
+	field := ""
+	ast.Inspect(nf.Body, func(n ast.Node) bool {
+		if kv, ok := n.(*ast.KeyValueExpr); ok {
+			if id, ok := kv.Key.(*ast.Ident); ok && id.Name == "labels" {
+				field = ss.ExprString(kv.Value)
+			}
+		}
+		return true
+	})
+	if field == "" {
+		return fmt.Errorf("srcfacts: shipper.New: the labels field of the Shipper literal was not found")
+	}
+	fmt.Fprintf(w, "(* pkg/shipper/shipper.go: New — the value stored in Shipper.labels *)\nDefinition new_labels_field : string := %s%%string.\n", common.CoqString(field))
+	// ... and Shipper.upload reads it by calling it
+	lr, err := ss.RHS("Shipper.upload", "lset")
+	if err != nil {
+		return err
+	}
+	fmt.Fprintf(w, "Definition upload_lset_rhs : string := %s%%string.\n", common.CoqString(ss.ExprString(lr)))
 	return nil
 }
 
@@ -169,7 +199,17 @@ func run(raw json.RawMessage) (common.Case, error) {
 	}()
 	var steps []string
 	var obs []any
-	crashes, fails, uploads := 0, 0, 0
+	crashes, fails, uploads, reused := 0, 0, 0, 0
+	var curShipper *shipper.Shipper
+	var curRB *cu.RecBucket
+	var curKey string
+	var curLabels labels.Labels
+	var roots []*os.Root
+	defer func() {
+		for _, r := range roots {
+			r.Close()
+		}
+	}()
 	wasCorrupt := map[int]bool{}
 	cfgs := map[string]bool{}
 	for si, sy := range in.Syncs {
@@ -208,28 +248,39 @@ func run(raw json.RawMessage) (common.Case, error) {
 			}
 		}
 		_, mfBeforeNums, mfBeforeBytes := readMetaFile(tmp, env)
-		rb := cu.NewRecBucket(inner)
-		rb.CountReads = true
-		rb.CrashAt, rb.FailAt = sy.Crash, sy.Fail
-		root, err := os.OpenRoot(tmp)
-		if err != nil {
-			return c, err
+		optKey := fmt.Sprint(sy.UC, sy.OOO, sy.Skip, sy.Conc)
+		if curShipper == nil || sy.Fresh || optKey != curKey {
+			// a new process: it starts with the external labels of this sync; a reused Shipper sees
+			// them change through its label callback (the owner reloaded its configuration)
+			curLabels = labels.FromMap(sy.Labels)
+			curRB = cu.NewRecBucket(inner)
+			root, err := os.OpenRoot(tmp)
+			if err != nil {
+				return c, err
+			}
+			roots = append(roots, root)
+			curShipper = shipper.New(curRB, root,
+				shipper.WithLogger(log.NewNopLogger()),
+				shipper.WithSource(metadata.TestSource),
+				shipper.WithLabels(func() labels.Labels { return curLabels }),
+				shipper.WithUploadCompacted(sy.UC),
+				shipper.WithAllowOutOfOrderUploads(sy.OOO),
+				shipper.WithSkipCorruptedBlocks(sy.Skip),
+				shipper.WithUploadConcurrency(sy.Conc),
+				shipper.WithHashFunc(metadata.NoneFunc))
+			curKey = optKey
+		} else {
+			reused++
 		}
-		lset := labels.FromMap(sy.Labels)
-		sh := shipper.New(rb, root,
-			shipper.WithLogger(log.NewNopLogger()),
-			shipper.WithSource(metadata.TestSource),
-			shipper.WithLabels(func() labels.Labels { return lset }),
-			shipper.WithUploadCompacted(sy.UC),
-			shipper.WithAllowOutOfOrderUploads(sy.OOO),
-			shipper.WithSkipCorruptedBlocks(sy.Skip),
-			shipper.WithUploadConcurrency(sy.Conc),
-			shipper.WithHashFunc(metadata.NoneFunc))
+		curLabels = labels.FromMap(sy.Labels) // the external labels current at this sync
+		rb, sh := curRB, curShipper
+		rb.Arm(sy.Crash, sy.Fail, true)
 		rerr, crashed, wait := cu.RunAction(rb, func() error { _, err := sh.Sync(ctx); return err })
-		teardown = append(teardown, func() { rb.Release(); wait(); root.Close() })
+		teardown = append(teardown, func() { rb.Release(); wait() })
 		if !crashed && sy.Crash >= 0 && sy.Crash == rb.Counted() {
 			// died after the last bucket operation, before WriteMetaFile: put the old file back
 			crashed = true
+			curShipper = nil
 			p := filepath.Join(tmp, shipper.DefaultMetaFilename)
 			if mfBeforeBytes == nil {
 				os.Remove(p)
@@ -241,6 +292,7 @@ func run(raw json.RawMessage) (common.Case, error) {
 		ops := cu.MutOps(all)
 		if crashed {
 			crashes++
+			curShipper = nil // the process is dead: the next sync is a new one
 		}
 		for _, o := range all {
 			if o.Err {
@@ -292,6 +344,13 @@ func run(raw json.RawMessage) (common.Case, error) {
 			if p := cu.MetaProblem(o.Snap); p != "" && c.GoPred == "" {
 				c.GoPred = fmt.Sprintf("sync %d after %q: %s", si, o.Kind+" "+o.Name, p)
 				c.Sig = "visible-incomplete"
+			}
+			if k.File.Kind == "meta" && o.Kind == "upload" && c.GoPred == "" {
+				var m metadata.Meta
+				if json.Unmarshal(o.Body, &m) != nil || env.Lbl(m.Thanos.Labels) != env.Lbl(sy.Labels) {
+					c.GoPred = fmt.Sprintf("sync %d uploaded %s with external labels %v, the labels current at this sync are %v", si, o.Name, m.Thanos.Labels, sy.Labels)
+					c.Sig = "stale-external-labels"
+				}
 			}
 		}
 		post := inner.Objects()
@@ -380,7 +439,7 @@ func run(raw json.RawMessage) (common.Case, error) {
 		cfg := common.App("mkcfg", common.List(present), common.Bool(sy.UC), common.Bool(sy.OOO), lbl, fault, common.List(cids),
 			common.Bool(sy.Skip), common.List(corr), common.Bool(sy.Conc > 1), common.List(orders))
 		steps = append(steps, common.App("mkstep", cfg, common.Bool(ret), common.List(opsC), common.List(snapsC), mfAfter))
-		obs = append(obs, map[string]any{"sync": si, "crashed": crashed, "returned_nil": ret, "ops": opNames, "meta_file": mfAfterNums, "bucket_ops_total": rb.Counted()})
+		obs = append(obs, map[string]any{"sync": si, "crashed": crashed, "returned_nil": ret, "ops": opNames, "meta_file": mfAfterNums, "bucket_ops_total": rb.Counted(), "labels": sy.Labels, "shipper_objects_reused_so_far": reused})
 		cfgs[fmt.Sprintf("uc=%v,ooo=%v", sy.UC, sy.OOO)] = true
 	}
 	c.Coq = common.App("CSync", common.List(univ), common.List(locals), common.List(steps))
@@ -469,10 +528,10 @@ func gen(r *rand.Rand, tier string, n int) []any {
 					uc, ooo = true, false
 				}
 			}
-			if r.Intn(10) == 0 {
+			if r.Intn(4) == 0 {
 				lbls = map[string]string{"replica": common.Pick(r, "a", "b", "c")}
 			}
-			sy := syncIn{UC: uc, OOO: ooo, Labels: lbls, Crash: -1, Fail: -1}
+			sy := syncIn{UC: uc, OOO: ooo, Labels: lbls, Crash: -1, Fail: -1, Fresh: r.Intn(3) == 0}
 			if r.Intn(25) == 0 {
 				sy.Labels = map[string]string{}
 			}
